@@ -44,7 +44,9 @@ struct Core {
 	uint8_t *base = nullptr;       // 4 GiB aligned
 	size_t cap = 0;                // usable bytes
 	size_t cur = 0;                // bump offset
-	size_t poisoned_hi = 0;        // [0, poisoned_hi) has been ASan-poisoned for this case
+	size_t poisoned_hi = 0;        // [0, poisoned_hi) has been ASan-poisoned for this case, except the holes
+	std::vector<std::pair<size_t, size_t>> holes;   // huge regions of non-poisoning policies: never (un)poisoned in ASan
+	static constexpr size_t HUGE = (size_t)1 << 30;
 	size_t dirty_hi = 0;
 	std::vector<std::pair<size_t, size_t>> recycled;   // (off, len), LIFO
 	bool recycle = false;
@@ -85,9 +87,12 @@ struct Core {
 	void reset(const CfgInfo *c) {
 		init();
 		if(dirty_hi) {
-			VH_UNPOISON(base, poisoned_hi);
+			size_t lo = 0;
+			for(auto &h : holes) { if(h.first > lo) VH_UNPOISON(base + lo, h.first - lo); lo = h.second; }
+			if(poisoned_hi > lo) VH_UNPOISON(base + lo, poisoned_hi - lo);
 			madvise(base, dirty_hi, MADV_DONTNEED);
 		}
+		holes.clear();
 		cur = ARENA_UNIT * 16; poisoned_hi = 0; dirty_hi = 0;
 		recycled.clear(); recycle = false; ci = c;
 		fail_next = false; skip_units = 0; quiet = false;
@@ -96,15 +101,24 @@ struct Core {
 		begin_op();
 	}
 	void begin_op() { op_maps = op_failed_maps = op_unmaps = op_cbs = 0; op_map_r = 0; op_map_len = 0; op_unmap_b = 0; op_unmap_len = 0; }
-	void ensure(size_t hi) {     // everything below hi is poisoned in ASan and covered by the own shadow
+	void ensure(size_t hi) {     // everything below hi is poisoned in ASan (except holes) and, for poisoning policies, covered by the own shadow
 		if(hi > cap) { fprintf(stderr, "arena exhausted\n"); exit(3); }
 		if(hi > poisoned_hi) {
 			size_t nh = std::min(cap, std::max<size_t>(hi, poisoned_hi + ((size_t)32 << 20)));
 			VH_POISON(base + poisoned_hi, nh - poisoned_hi);
 			poisoned_hi = nh;
-			shadow.resize((nh + 63) / 64, 0);
+			if(ci->poison) shadow.resize((nh + 63) / 64, 0);
 		}
 		if(hi > dirty_hi) dirty_hi = hi;
+	}
+	// a huge region of a non-poisoning policy: only virtual address space; skip it in the ASan poisoning
+	void ensure_with_hole(size_t off, size_t len) {
+		if(off + len > cap) { fprintf(stderr, "arena exhausted\n"); exit(3); }
+		ensure(off);                                    // poisons at least [.., off)
+		size_t covered = std::min(poisoned_hi, off + len);
+		if(covered > off) VH_UNPOISON(base + off, covered - off);      // the part of the region that is already poisoned
+		if(off + len > poisoned_hi) { holes.push_back({poisoned_hi, off + len}); poisoned_hi = off + len; }
+		if(off + len > dirty_hi) dirty_hi = off + len;
 	}
 
 	// ---- own shadow
@@ -176,12 +190,13 @@ struct Core {
 			cur = off + len + ARENA_UNIT;             // one guard unit after every mapping, never unpoisoned
 		}
 		skip_units = 0;
-		ensure(std::max(cur, off + len));
+		bool huge = !ci->poison && len >= HUGE;
+		if(huge && !reused) { ensure_with_hole(off, len); ensure(cur); } else ensure(std::max(cur, off + len));
 		uintptr_t r = (uintptr_t)base + off;
 		for(auto &rg : regions)
 			if(!(r + len <= rg.first || rg.first + rg.second <= r)) { fprintf(stderr, "arena policy bug: overlapping map\n"); exit(3); }
 		regions[r] = len;
-		if(!ci->poison) { VH_UNPOISON((void *)r, len); sh_set(r, len, true); }   // a policy without poison hooks hands out plain memory
+		if(!ci->poison && !huge) VH_UNPOISON((void *)r, len);   // a policy without poison hooks hands out plain memory
 		op_map_r = r; op_map_len = len;
 		if(!quiet) printf("map %zu %zu %llu\n", len, al, (ull)v(r));
 		return r;
@@ -198,7 +213,8 @@ struct Core {
 			vh::oracle("unmap", "unmap(%llu, %zu) while a live block lies inside", (ull)v(b), len);
 		op_unmap_b = b; op_unmap_len = rl;
 		regions.erase(it);
-		VH_POISON((void *)b, rl); sh_set(b, rl, false);
+		if(ci->poison || rl < HUGE) VH_POISON((void *)b, rl);
+		if(ci->poison) sh_set(b, rl, false);
 		recycled.push_back({b - (uintptr_t)base, rl});
 	}
 	// returns the part of n that lies inside the mapped region containing a (the whole of n when the call is legal)
@@ -238,7 +254,11 @@ static Core g;
 struct Mutex {
 	bool locked = false;
 	void lock() { if(locked) { vh::oracle("deadlock", "lock() on a mutex the thread already holds"); } locked = true; g.held++; }
-	void unlock() { if(!locked) vh::oracle("deadlock", "unlock() of a mutex that is not locked"); else g.held--; locked = false; }
+	void unlock() {
+		if(!locked) vh::oracle("lock-balance", "unlock() of a pool mutex that is not locked (%d lock(s) held)", g.held);
+		else g.held--;
+		locked = false;
+	}
 };
 
 struct MapAligned {
@@ -278,7 +298,9 @@ template<class M, class P, class C> struct Policy : M, P, C { };
 	X(p4k_s112k_b13_up, Policy<MapPlain,   Poisoning,   Consts<0x1000, 0x20000, 0x1C000, 13>>) \
 	X(p16k_s112k_b10_un, Policy<MapPlain,  NoPoisoning, Consts<0x4000, 0x20000, 0x1C000, 10>>) \
 	X(p4k_s64k_b4_an,   Policy<MapAligned, NoPoisoning, Consts<0x1000, 0x10000, 0x10000, 4>>) \
-	X(p4k_s256k_b4_up,  Policy<MapPlain,   Poisoning,   Consts<0x1000, 0x40000, 0x40000, 4>>)
+	X(p4k_s256k_b4_up,  Policy<MapPlain,   Poisoning,   Consts<0x1000, 0x40000, 0x40000, 4>>) \
+	X(p64k_s64k_b12_ap, Policy<MapAligned, Poisoning,   Consts<0x10000, 0x10000, 0x10000, 12>>) \
+	X(p64k_s64k_b12_un, Policy<MapPlain,   NoPoisoning, Consts<0x10000, 0x10000, 0x10000, 12>>)
 
 template<class Pol> CfgInfo make_info(const char *name) {
 	using Pool = frg::slab_pool<Pol, Mutex>;
@@ -485,7 +507,7 @@ struct Runner {
 		b.small = n1 <= max_small();
 		b.size0 = pool.get_size((void *)p);
 		b.cls = b.small ? cls_of_size(b.size0) : -1;
-		b.data.assign(n1, 0); b.det.assign(n1, 0);
+		if(n1 <= ((size_t)64 << 20)) { b.data.assign(n1, 0); b.det.assign(n1, 0); }   // huge blocks: contents not tracked
 		if(live.count(p)) vh::oracle("overlap", "allocate returned %llu which is already live", (ull)g.v(p));
 		if(mapped_now) {
 			if(b.small) {
@@ -534,6 +556,14 @@ struct Runner {
 		if(g.held) vh::oracle("mapfail", "%s: %d lock(s) still held after the failed call", what, g.held);
 	}
 
+	// nothing may be left locked when an API call returns
+	void check_locks(const char *what) {
+		int still = pool._tree_mutex.locked ? 1 : 0;
+		for(int i = 0; i < ci.nb; i++) if(pool._bkts[i].bucket_mutex.locked) still++;
+		if(still || g.held)
+			vh::oracle("lock-balance", "%s returned with %d pool mutex(es) locked (balance %d)", what, still, g.held);
+	}
+
 	void result_ptr(void *p) {
 		g.flush_run();
 		printf("= %llu sz=%zu used=%zu\n", (ull)g.v((uintptr_t)p), p ? pool.get_size(p) : (size_t)0, pool.numUsedPages());
@@ -543,6 +573,7 @@ struct Runner {
 		set_env(env); g.begin_op();
 		uint64_t fp = fingerprint(); size_t ub = pool.numUsedPages();
 		void *p = pool.allocate(n);
+		check_locks(g.op_failed_maps ? "allocate (map failed)" : "allocate");
 		result_ptr(p);
 		if(g.op_failed_maps) after_failed_map("allocate", p, fp, ub);
 		else if(!p) vh::oracle("mapfail", "allocate(%zu) returned null although no map() failed", n);
@@ -569,6 +600,7 @@ struct Runner {
 			}
 		}
 		g.quiet = false; g.run_open = false;
+		check_locks("allocate/free churn");
 		printf("= churn used=%zu\n", pool.numUsedPages());
 	}
 
@@ -577,6 +609,7 @@ struct Runner {
 		g.begin_op(); g.fail_next = false; g.cur_free_p = (uintptr_t)p;
 		uint64_t fp = p ? 0 : fingerprint();
 		if(sized) pool.deallocate(p, n); else pool.free(p);
+		check_locks("free");
 		g.flush_run();
 		printf("= unit used=%zu\n", pool.numUsedPages());
 		if(!p) {
@@ -593,6 +626,7 @@ struct Runner {
 		Blk old; bool had = false;
 		if(p) { auto it = live.find((uintptr_t)p); if(it != live.end()) { old = it->second; had = true; } }
 		void *q = pool.realloc(p, n);
+		check_locks(g.op_failed_maps ? "realloc (map failed)" : "realloc");
 		result_ptr(q);
 		g.cur_free_p = 0;
 		if(!p) {                                   // realloc(null, n) == allocate(n)
